@@ -3,6 +3,8 @@
 // at quiescence every node that was put and not taken out can be obtained again.
 #include "common.h"
 
+#include <dlfcn.h>
+#include <pthread.h>
 #include <cds/intrusive/free_list.h>
 #include <cds/intrusive/free_list_tagged.h>
 #include <cds/intrusive/free_list_cached.h>
@@ -43,6 +45,42 @@ extern "C" bool cdsverif_atomic_is_lock_free( size_t size, const volatile void* 
     }
     default:
         return false;
+    }
+}
+
+// CachedFreeList picks its cache slot from std::hash<std::thread::id>(this_thread::get_id()).
+// With libstdc++ that is a byte hash of the pthread_t, i.e. of an address: the slot of a pooled
+// worker would be fixed for the life of the process (so whether two workers share a slot would
+// never vary inside a campaign) and would differ from process to process (so replays would not
+// be reproducible). The value of std::hash for a thread id is unspecified and the free list must
+// be correct for any assignment, so the assignment is made a generated input instead: while a
+// case runs, the hash of the CALLING thread's own id is a function of its harness id and
+// cfg "slots"; every other use of the byte hash is forwarded to libstdc++ unchanged.
+namespace {
+    thread_local int tl_me = 0;         // harness id of the calling thread: 0 main, 1..T workers
+    int g_slot_mode = -1;               // -1: override off
+    size_t slot_of( int me )
+    {
+        switch ( g_slot_mode ) {
+        case 0: return 0;                       // everybody shares one slot
+        case 1: return size_t( me );            // distinct slots (mod cache size)
+        case 2: return size_t( me ) / 2;        // main+w1, w2+w3, w4
+        default: return size_t( me ) % 2;       // main+w2+w4, w1+w3
+        }
+    }
+}
+namespace std {
+    size_t _Hash_bytes( const void* ptr, size_t len, size_t seed )
+    {
+        typedef size_t (*fn_t)( const void*, size_t, size_t );
+        static fn_t real = reinterpret_cast<fn_t>( dlsym( RTLD_NEXT, "_ZSt11_Hash_bytesPKvmm" ));
+        if ( g_slot_mode >= 0 && len == sizeof( pthread_t )) {
+            pthread_t v;
+            memcpy( &v, ptr, sizeof( v ));
+            if ( pthread_equal( v, pthread_self()))
+                return 0xabcdef00u + slot_of( tl_me );      // CachedFreeList masks with CacheSize-1 (<= 15)
+        }
+        return real( ptr, len, seed );
     }
 }
 
@@ -91,6 +129,12 @@ namespace {
         const size_t T = c.prog.size();
         const int N = cfg_at( c, 0, 3 );
         const int prehold = cfg_at( c, 1, 0 );
+        struct SlotMode {
+            explicit SlotMode( int m ) { g_slot_mode = m; }
+            ~SlotMode() { g_slot_mode = -1; }
+        } slot_mode( cfg_at( c, 2, 1 ));
+        if ( std::hash<std::thread::id>()( std::this_thread::get_id()) != 0xabcdef00u + slot_of( 0 ))
+            note_class( "slot_override_inactive" );     // slots are address dependent then (replays of cached variants may differ)
 
         std::vector<std::unique_ptr<node_t>> nodes;
         for ( int i = 0; i < N; ++i ) {
@@ -191,6 +235,7 @@ namespace {
                 bodies.push_back( [&, t]() {
                     Attach a;
                     const int me = int( t ) + 1;
+                    tl_me = me;
                     for ( Op const& op : c.prog[t] ) {
                         if ( failed())
                             break;
@@ -217,6 +262,7 @@ namespace {
                         }
                     }
                     check_held( me );
+                    tl_me = 0;
                 } );
             }
             run_threads( bodies );
@@ -301,7 +347,7 @@ namespace cdsverif {
             x.name = "freelist";
             for ( size_t i = 0; i < kNumVariants; ++i )
                 x.variants.push_back( kVariants[i].name );
-            x.cfg = { { "nodes", 2, 6 }, { "prehold", 0, 2 } };
+            x.cfg = { { "nodes", 2, 6 }, { "prehold", 0, 2 }, { "slots", 0, 3 } };
             // get: b = points while holding; put: a = index into the held set, b = points before
             x.ops = { { "get", 5, 0, 2 }, { "put", 5, 7, 2 } };
             x.min_threads = 2;
